@@ -81,6 +81,16 @@ CLAIMS["C09"] = dict(
     note="NOT decided (outside this family): 'in bounded time', hang freedom and the interleaving quantifier; Worker/TaskExecutionActor/TrackPreparationActor forwarding and racecontrol.race() are covered under C01/C07 or not yet. Assumed: thespian delivery.",
     design="§4 C09",
 )
+CLAIMS["C01"] = dict(
+    text="Proofs of the handler-local guarantees the barrier argument rests on, over ghost message traces: Driver.joinpoint_reached (nobody is driven on, nothing reported and the step does not advance until the LAST worker of the step reports; then the step advances by one, bookkeeping is reset and exactly one of: one on_benchmark_complete and no Drive, or on_task_finished followed by exactly one Drive per worker), move_to_next_task, may_complete_current_task (at most one broadcast per step; completed-by any / named task conditions over worker ids), Worker.receiveMsg_Drive / CompleteCurrentTask (ignored at a join point), Worker.drive PROGRESS obligation (every return has either sent exactly one JoinPointReached at a join point with flags reset, or submitted an executor AND armed a wake-up; join-point columns are never skipped; recursion by its own contract).",
+    note="NOT decided (outside this family): the quantifier over delivery orders/delays/clock offsets and liveness; the composition lemma (no worker in step k+1 while another is in step k) is assumed from the handler contracts. One genuine defect (skip branch armed nothing: race hangs) was found by this check and repaired by a fix: commit. Allocator join points: see C02.",
+    design="§4 C01",
+)
+CLAIMS["C07"] = dict(
+    text="Proofs of the function-level exactly-once links: Worker.send_samples (queue drained once, everything drained shipped in ONE UpdateSamples), Worker.drive (the sampler is only replaced or dropped after it was drained and the finished executor joined), Driver.update_samples (shipment appended as a whole, order kept), Driver.post_process_samples (the processor gets exactly the gathered list, new samples go to a fresh empty list), move_to_next_task (metrics externalised with clear exactly once per step and handed to race control).",
+    note="NOT decided: interleavings of ticks/shipments/hand-overs; SamplePostprocessor record counts and the metrics store internals are not yet under contract. One genuine defect (sampler replaced un-drained at a task-to-task transition) was found and repaired by a fix: commit.",
+    design="§4 C07",
+)
 NA_DEFAULT = "check not built yet in this revision (the framework is under construction; see DESIGN.md §6b build order)"
 checks = []
 for p in props:
